@@ -152,8 +152,8 @@ def gather(L, p, extra_atoms):
                 F.b["is_pawn"] = is_pawn
             else:
                 F.unknown.append(e)
-        elif e[0] == "bin" and e[1] == "Eq" and set((e[2], e[3])) == {("relrank", 7, STM), ("rank", TO)} and isinstance(v, int):
-            F.b["to_eighth"] = bool(v)
+        elif e[0] == "bin" and e[1] in ("Eq", "Ne") and set((e[2], e[3])) == {("relrank", 7, STM), ("rank", TO)} and isinstance(v, int):
+            F.b["to_eighth"] = (e[1] == "Eq") == bool(v)
         elif e[0] == "has" and isinstance(v, int):
             F.has.append((e[1], e[2], bool(v)))
         else:
@@ -306,7 +306,9 @@ def check_is_legal(ctx, f, L):
             elif kind == "Pawn":
                 case = "pawn"
                 e8 = F.b.get("to_eighth")
-                if e8 is None or F.promo is None:
+                if F.promo == "Some" and (F.promo_piece in ("Pawn", "King") or {"Knight", "Bishop", "Rook", "Queen"} <= F.promo_excl):
+                    conj["promotion shape"] = False         # no rank admits a promotion to a pawn or a king
+                elif e8 is None or F.promo is None:
                     conj["promotion shape"] = None
                 elif e8:
                     if F.promo == "None":
